@@ -667,7 +667,7 @@ impl FixedScen {
             let a = if rng.chance(1, 25) && !used.is_empty() {
                 rng.pick(&used).clone() // duplicate
             } else if rng.chance(1, 40) {
-                format!("-{INVALID_ADDR}")
+                format!("-{}", invalid_addr(rng, &self.pool))
             } else {
                 format!("+{}", cands[(i + (self.seed as usize)) % cands.len()])
             };
@@ -950,7 +950,7 @@ impl Scenario for FixedScen {
             };
             let anyaddr = |rng: &mut Rng| -> String {
                 if rng.chance(1, 10) {
-                    format!("-{INVALID_ADDR}")
+                    format!("-{}", invalid_addr(rng, &self.pool))
                 } else {
                     format!("+{}", rng.pick(&self.actors()))
                 }
